@@ -321,11 +321,23 @@ func runCheck(prop, tier string, seed int, only string, verbose bool, workers in
 	known := loadKnown()
 	violated := false
 	os.MkdirAll(filepath.Join(outDir, "replay", prop), 0o755)
+	// several scenarios may be recorded per assertion: once one of them has
+	// reproduced natively the others are not replayed, and a scenario that did
+	// not reproduce only makes the run inconclusive if none did
+	reproducedBase := map[string]bool{}
+	type pendingMsg struct{ base, inconclusive, line string }
+	var unreproduced []pendingMsg
 	for i, v := range ex.Violations {
 		vr := vioReport{Harness: v.Harness, ID: v.ID, Site: v.Site, Func: v.Func, Msg: v.Msg}
+		base := v.Harness + "|" + v.ID + "|" + v.Site
 		path := filepath.Join(outDir, "replay", prop, fmt.Sprintf("%s-%d.json", v.Harness, i))
 		writeVector(path, prop, v, ex.Tier, pkgOfHarness(hs, v.Harness))
 		vr.Replay = path
+		if reproducedBase[base] {
+			vr.Outcome = "not replayed (another scenario of the same assertion already reproduced)"
+			res.Violations = append(res.Violations, vr)
+			continue
+		}
 		if noReplay {
 			vr.Outcome = "replay skipped"
 		} else {
@@ -340,9 +352,11 @@ func runCheck(prop, tier string, seed int, only string, verbose bool, workers in
 		repro := outcomeMatches(v.ID, vr.Outcome)
 		switch {
 		case repro && vr.Known:
+			reproducedBase[base] = true
 			res.Known++
 			res.Lines = append(res.Lines, fmt.Sprintf("KNOWN-FINDING: property=%s %s in %s (%s) at %s", prop, v.ID, v.Func, v.Msg, v.Site))
 		case repro:
+			reproducedBase[base] = true
 			violated = true
 			res.Lines = append(res.Lines, fmt.Sprintf("VIOLATION property=%s replay=%s", prop, path))
 			res.Lines = append(res.Lines, fmt.Sprintf("  harness=%s id=%s func=%s site=%s msg=%s outcome=%s", v.Harness, v.ID, v.Func, v.Site, v.Msg, vr.Outcome))
@@ -350,9 +364,17 @@ func runCheck(prop, tier string, seed int, only string, verbose bool, workers in
 			res.Inconclusive = append(res.Inconclusive, fmt.Sprintf("model for %s/%s at %s not replayed", v.Harness, v.ID, v.Site))
 			res.Lines = append(res.Lines, fmt.Sprintf("MODEL (not replayed) harness=%s id=%s func=%s site=%s msg=%s vector=%s", v.Harness, v.ID, v.Func, v.Site, v.Msg, path))
 		default:
-			res.Inconclusive = append(res.Inconclusive, fmt.Sprintf("model for %s/%s at %s did not reproduce natively (%s): encoding or stub is wrong", v.Harness, v.ID, v.Site, vr.Outcome))
-			res.Lines = append(res.Lines, fmt.Sprintf("UNREPRODUCED harness=%s id=%s func=%s site=%s msg=%s outcome=%s vector=%s", v.Harness, v.ID, v.Func, v.Site, v.Msg, vr.Outcome, path))
+			unreproduced = append(unreproduced, pendingMsg{base,
+				fmt.Sprintf("model for %s/%s at %s did not reproduce natively (%s): encoding or stub is wrong", v.Harness, v.ID, v.Site, vr.Outcome),
+				fmt.Sprintf("UNREPRODUCED harness=%s id=%s func=%s site=%s msg=%s outcome=%s vector=%s", v.Harness, v.ID, v.Func, v.Site, v.Msg, vr.Outcome, path)})
 		}
+	}
+	for _, u := range unreproduced {
+		if reproducedBase[u.base] {
+			continue
+		}
+		res.Inconclusive = append(res.Inconclusive, u.inconclusive)
+		res.Lines = append(res.Lines, u.line)
 	}
 	if n := ex.Status["unsupported"]; n > 0 {
 		res.Inconclusive = append(res.Inconclusive, fmt.Sprintf("%d paths ended in unsupported constructs", n))
